@@ -12,7 +12,7 @@ pub static DEF: PropDef = PropDef {
     id: "C19",
     level: "exploration",
     engine: "cluster",
-    rule: "one run = a real NodeRegistry (30 s heartbeat timeout, run_health_checks task on the virtual clock), ShardAssignment (one of the three strategies) and DistributedWriteRouter driven through a generated history of 8..30 events (register ingester/query/combined node, heartbeat, stop heartbeating, drain, load change incl. >=95%, remove, rebalance, virtual pauses of 0..40 s) with route_write for 1..4 shard ids after every event, each call under a 1000-poll budget; distinct = distinct hash of (strategy, event history); non-trivial = completed AND at least one node turned ineligible while it had a shard assigned",
+    rule: "one run = a real NodeRegistry (heartbeat timeout 30 / 8 / 5 / 4 s, run_health_checks task on the virtual clock), ShardAssignment (one of the three strategies) and DistributedWriteRouter driven through a generated history of 8..30 events (register ingester/query/combined node, heartbeat, stop heartbeating, drain, load change incl. >=95%, remove, rebalance, virtual pauses of 0..40 s) with route_write for 1..4 shard ids after every event, each call under a 1000-poll budget; distinct = distinct hash of (strategy, event history); non-trivial = completed AND at least one node turned ineligible while it had a shard assigned",
     quick_runs: 20000,
     thorough_runs: 200_000,
     run_cap_ms: 20_000,
@@ -30,7 +30,9 @@ fn scen(_spec: RunSpec) -> ScenFut {
             c.idle_tick_ms = 5_000;
         });
         let strategy = [AssignmentStrategy::ConsistentHash, AssignmentStrategy::RoundRobin, AssignmentStrategy::LoadBased][sim::w(3) as usize];
-        let nodes = Arc::new(NodeRegistry::new(30));
+        // heartbeat timeout: the default 30 s, or a short one (short time-outs are what latency-sensitive deployments set)
+        let timeout_s: u64 = [30u64, 30, 8, 5, 4][sim::w(5) as usize];
+        let nodes = Arc::new(NodeRegistry::new(timeout_s));
         let assign = Arc::new(ShardAssignment::new(nodes.clone(), strategy));
         let router = Arc::new(DistributedWriteRouter::new(assign.clone(), nodes.clone()));
         let n2 = nodes.clone();
@@ -176,7 +178,7 @@ fn scen(_spec: RunSpec) -> ScenFut {
                         Some(Ok(Some(n))) => {
                             // against the history (not the registry's own fields): never a removed node, a drained node
                             // that has not registered again, a query-only node, a node whose last reported load is
-                            // >= 95 %, or a node silent for more than 120 s (four times the heartbeat timeout)
+                            // >= 95 %, or a node silent for longer than the heartbeat timeout plus two health-check periods
                             let why = if m_removed.contains(&n.id) {
                                 Some("was removed")
                             } else if m_drained.contains(&n.id) {
@@ -185,13 +187,20 @@ fn scen(_spec: RunSpec) -> ScenFut {
                                 Some("is a query-only node")
                             } else if m_load.get(&n.id).copied().unwrap_or(0) >= 95 {
                                 Some("last reported a load of 95 % or more")
-                            } else if sim::now_ns().saturating_sub(m_beat.get(&n.id).copied().unwrap_or(0)) > 120_000_000_000 {
-                                Some("has been silent for more than 120 s")
+                            } else if sim::now_ns().saturating_sub(m_beat.get(&n.id).copied().unwrap_or(0)) > (timeout_s + 11) * 1_000_000_000 {
+                                // the registry looks at the heartbeats every 5 s: after the timeout plus two such periods a silent
+                                // node is at least suspected, i.e. not healthy
+                                Some("has been silent for longer than the heartbeat timeout plus two health-check periods")
                             } else {
                                 None
                             };
                             if let Some(why) = why {
                                 sim::violation("C19/routed-to-ineligible-node/by-history", format!("route_write({shard}) returned node {} which {why} (registry says status {:?}, load {})", n.id, n.status, n.load_percent));
+                            }
+                            // the registry's own record of the node, field by field (not through its eligibility helper): healthy
+                            // means status Healthy - a suspected, failed or draining node is not
+                            if !matches!(n.status, cardinalsin::cluster::NodeStatus::Healthy) {
+                                sim::violation("C19/routed-to-ineligible-node/status", format!("route_write({shard}) returned node {} whose status is {:?}", n.id, n.status));
                             }
                             if !n.can_accept_writes() {
                                 sim::violation(
